@@ -149,6 +149,9 @@ fn base_dir() -> PathBuf {
 }
 
 pub fn cleanup_process_dir() {
+    if std::env::var("WBSIM_KEEP").is_ok() {
+        return;
+    }
     let _ = std::fs::remove_dir_all(base_dir());
 }
 
@@ -182,7 +185,9 @@ where
     // destructors goes nowhere because the context is still installed and the nodes are marked
     rt.shutdown_timeout(Duration::from_millis(0));
     let sim = ctx::uninstall().expect("sim");
-    let _ = std::fs::remove_dir_all(&dir);
+    if std::env::var("WBSIM_KEEP").is_err() {
+        let _ = std::fs::remove_dir_all(&dir);
+    }
     let stats = RunStats {
         trace: sim.trace,
         polls: sim.polls,
